@@ -9,7 +9,8 @@ from pyvc.dsl import *
 
 classdef("liquer.parser.Position", fields={})
 classdef("liquer.parser.ResourceName", fields=dict(name=Str, position=Opt(Ref("Position"))))
-classdef("liquer.parser.SegmentHeader", fields=dict(name=Str))
+classdef("HeaderParam", abstract=True, fields={})        # a parameter of a segment header (string or link parameter)
+classdef("liquer.parser.SegmentHeader", fields=dict(name=Str, level=Int, resource=Bool, parameters=Seq(Ref("HeaderParam"))))
 classdef("Segment", sealed=True, fields=dict(header=Opt(Ref("SegmentHeader"))))
 classdef("liquer.parser.ResourceQuerySegment", bases=["Segment"], fields=dict(query=Seq(Ref("ResourceName"))))
 classdef("ActionLike", sealed=True, fields={})       # what evaluate_action accepts: an action request or a one-step transform segment
